@@ -33,6 +33,10 @@ pub trait Check: Sync {
     fn oracle_cli(&self, _c: &Case, _r: &RefOutcome, _o: &crate::subject::CliOutcome) -> Option<Verdict> {
         None
     }
+    /// replay of a violation of a law between two programs (`case.companion`)
+    fn replay_group(&self, _c: &Case, _pool: &crate::subject::Pool) -> Result<Option<Verdict>, MachineryError> {
+        Ok(None)
+    }
 }
 
 pub fn get(id: &str) -> Option<Box<dyn Check>> {
